@@ -1,5 +1,5 @@
 (* C16/Examples.v — non-vacuity and worked examples (XEP-0106 §5.1-style). *)
-From XV Require Import lib.Bytes gen.Generated C16.Model C16.Proofs.
+From XV Require Import lib.Bytes gen.JidEscape C16.Model C16.Proofs.
 
 Example ex_escape : escape_spec (str "d'artagnan@musketeers.lit") = str "d\27artagnan\40musketeers.lit".
 Proof. vm_compute. reflexivity. Qed.
